@@ -11,6 +11,7 @@ import (
 
 	"verifharness/evidence"
 	"verifharness/fakecluster"
+	"verifharness/rclient"
 	"verifharness/refmodel"
 	"verifharness/sut"
 )
@@ -457,6 +458,10 @@ type c20Case struct {
 	Reads int      `json:"reads_per_master"`
 	Mask  uint64   `json:"mask"`
 	Shape string   `json:"shape,omitempty"` // force one traffic shape (default: chosen by mask and master)
+	// Outage: before the reads are counted, one replica of a master with two or more (the one named in the
+	// proxy's seed list when that master is the first) refuses connections while a few reads are sent, stays
+	// down a moment longer, comes back, and gets 11 s to be noticed: it is a healthy replica again
+	Outage bool `json:"outage_first,omitempty"`
 }
 
 func c20Gen(t *rapid.T) c20Case {
@@ -473,6 +478,7 @@ func c20Gen(t *rapid.T) c20Case {
 	c.Topo.Cfg = rapid.SampledFrom([]sut.Config{{}, {ServerConns: 2}, {Password: "pw"}}).Draw(t, "cfg")
 	c.Reads = 300
 	c.Mask = rapid.Uint64().Draw(t, "mask")
+	c.Outage = rapid.IntRange(0, 3).Draw(t, "outage") == 0
 	return c
 }
 
@@ -499,6 +505,11 @@ func c20Exec(c *c20Case) []Discrepancy {
 	evidence.For("C20").Add("proxy_starts", 1)
 	cfg := c.Topo.Cfg
 	var ds []Discrepancy
+	if c.Outage {
+		if msg := c20Outage(f, c); msg != "" {
+			return append(f.checkAlive("C20", nil), disc("C20/proxy-does-not-serve", "%s", msg))
+		}
+	}
 	for mi := range c.Topo.Reps {
 		var slots []int
 		for _, r := range c.Topo.Ranges {
@@ -579,6 +590,56 @@ func c20Exec(c *c20Case) []Discrepancy {
 	return ds
 }
 
+// c20Outage takes one replica down while reads are routed to it, and brings it back.
+func c20Outage(f *Fixture, c *c20Case) string {
+	victim, slot := -1, -1
+	for mi := range c.Topo.Reps {
+		if c.Topo.Reps[mi] < 2 {
+			continue
+		}
+		for _, r := range c.Topo.Ranges {
+			if r[2] == mi {
+				slot = r[0]
+				break
+			}
+		}
+		if slot >= 0 {
+			victim = f.Owners[slot].Replicas[0]
+			break
+		}
+	}
+	if victim < 0 {
+		return ""
+	}
+	evidence.For("C20").Add("outages_played", 1)
+	f.Cluster.SetDown(victim, true)
+	cl, err := rclient.Dial(f.Proxy.Addr(), "")
+	if err != nil {
+		return "cannot connect: " + err.Error()
+	}
+	defer cl.Close()
+	// reads, one at a time, until one of them was answered with an error (it was routed to the replica that is down)
+	hit := false
+	for i := 0; i < 60 && !hit; i++ {
+		cl.Write(refmodel.EncodeCmdS("get", refmodel.KeyInSlot(slot, fmt.Sprintf("outage%d", i))))
+		if !cl.WaitReplies(i+1, 5*time.Second) {
+			f.Cluster.SetDown(victim, false)
+			return fmt.Sprintf("a read sent while replica node %d refuses connections got no reply within 5 s", victim)
+		}
+		st := cl.Snapshot()
+		hit = isErrorReply(st.Replies[i].Raw)
+	}
+	if hit {
+		evidence.For("C20").Add("outages_that_hit_a_read", 1)
+	}
+	time.Sleep(800 * time.Millisecond) // longer than the first retry window (server_retry_timeout 500 ms)
+	if err := f.Cluster.SetDown(victim, false); err != nil {
+		harnessProblem("cannot bring fake node %d back up: %v", victim, err)
+	}
+	time.Sleep(11 * time.Second) // the pool monitor probes every 5 s, twice per round when the first probe fails
+	return ""
+}
+
 func TestC20(t *testing.T) {
 	rec := evidence.For("C20")
 	rapidCheck(t, func(t *rapid.T) {
@@ -586,6 +647,9 @@ func TestC20(t *testing.T) {
 		cls := []string{fmt.Sprintf("masters-%d", len(c.Topo.Reps))}
 		for _, r := range c.Topo.Reps {
 			cls = append(cls, fmt.Sprintf("replicas-%d", r))
+		}
+		if c.Outage {
+			cls = append(cls, "after-a-replica-outage")
 		}
 		rec.Case(&c, true, dedup(cls)...)
 		report(t, "C20", &c, c20Exec(&c))
